@@ -260,9 +260,9 @@ func TestVerif_C06_Bookkeeping(t *testing.T) {
 		for i := 0; i < nOps; i++ {
 			op := rapid.SampledFrom([]string{
 				"addLocal", "addLocal", "addRemote", "addRemote", "addRemote", "inboundRequest", "inboundRequest", "tick", "answer", "answer",
-				"nominate", "silenceFail", "restart", "writeToPair", "addRemoteTCP", "connect", "connect", "start",
+				"nominate", "silenceFail", "restart", "writeToPair", "addRemoteTCP", "connect", "connect", "start", "addRemoteThenRestart",
 			}).Draw(rt, "op")
-			if (op == "restart" || op == "silenceFail") && rapid.IntRange(0, 2).Draw(rt, "really") != 0 {
+			if (op == "restart" || op == "silenceFail" || op == "addRemoteThenRestart") && rapid.IntRange(0, 2).Draw(rt, "really") != 0 {
 				op = "tick"
 			}
 			where := fmt.Sprintf("step %d (%s)", i, op)
@@ -476,6 +476,29 @@ func TestVerif_C06_Bookkeeping(t *testing.T) {
 				emptyCheck("failed", old)
 				s.ag.socks = nil
 				reset()
+			case "addRemoteThenRestart":
+				// the application hands over a trickled candidate and restarts right away (no waiting in between)
+				ei := rapid.IntRange(0, nEp-1).Draw(rt, "ep")
+				cand := s.epCandidate(ei, epSpecs[ei])
+				old := append([]*simSock{}, s.ag.socks...)
+				_ = s.ag.a.AddRemoteCandidate(cand)
+				if err := s.ag.restart(); err != nil {
+					rt.Fatalf("harness: restart: %v", err)
+				}
+				if !waitNoAddRemoteGoroutine() {
+					st.Inconclusive()
+					rt.Fatalf("VERIF-INCONCLUSIVE: AddRemoteCandidate goroutine still running after 20 s")
+				}
+				s.w.mu.Lock()
+				s.w.inflight = nil
+				s.w.mu.Unlock()
+				lbl["add-remote-then-restart"] = true
+				s.ops = append(s.ops, fmt.Sprintf("addRemote(%s)+restart", s.eps[ei].name()))
+				emptyCheck("add-remote-then-restart", old)
+				reset()
+				if s.ag.started {
+					_ = s.ag.a.SetRemoteCredentials(s.peer.ufrag, s.peer.pwd)
+				}
 			case "restart":
 				v := c06Take(s.ag.a)
 				if len(v.pairs) >= 2 {
